@@ -101,10 +101,12 @@ func (s *socket) SendMsg(m *protocol.Message) error {
 }
 
 func (s *socket) RecvMsg() (*protocol.Message, error) {
+	// The deadline is armed once per call: a queue resize restarts the
+	// wait, it does not extend the deadline.
+	timeQ := nilQ
 	for {
-		timeQ := nilQ
 		s.Lock()
-		if s.recvExpire > 0 {
+		if timeQ == nil && s.recvExpire > 0 {
 			timeQ = time.After(s.recvExpire)
 		}
 		closeQ := s.closeQ
